@@ -367,11 +367,11 @@ func main() {
 					c.Failf("generic-nil", "clip.Geometry(%v, %v) = %v, want nil", box, mp, gg)
 				}
 			case len(wm) == 1:
-				if !orb.Equal(gg, wm[0]) {
+				if !refgeom.Equal(gg, wm[0]) {
 					c.Failf("generic", "clip.Geometry(%v, %v) = %v, want the single polygon %v", box, mp, gg, wm[0])
 				}
 			default:
-				if !orb.Equal(gg, wm) {
+				if !refgeom.Equal(gg, wm) {
 					c.Failf("generic", "clip.Geometry(%v, %v) = %v, want %v", box, mp, gg, wm)
 				}
 			}
@@ -420,14 +420,14 @@ func main() {
 					break
 				}
 				for fi := range wl {
-					if !orb.Equal(l.Features[fi].Geometry, wl[fi].Geometry) {
+					if !refgeom.Equal(l.Features[fi].Geometry, wl[fi].Geometry) {
 						c.Failf("mvt-layer-clip", "Layers.Clip(%v): layer %d feature %d = %v, Layer.Clip gives %v", box, li, fi, l.Features[fi].Geometry, wl[fi].Geometry)
 					}
 				}
 			}
 			if len(layer.Features) != wantN {
 				c.Failf("mvt-layer-clip", "Layer.Clip(%v) kept %d features, want %d", box, len(layer.Features), wantN)
-			} else if want != nil && !orb.Equal(layer.Features[0].Geometry, want) {
+			} else if want != nil && !refgeom.Equal(layer.Features[0].Geometry, want) {
 				c.Failf("mvt-layer-clip", "Layer.Clip(%v) polygon feature = %v, want %v", box, layer.Features[0].Geometry, want)
 			}
 			if ro != nil && rh != nil {
